@@ -45,6 +45,14 @@ var Captures = map[string][]Datagram{
 	// P0 is older than P1 and belongs to flow a, sent by the other endpoint: importing it after P1 rebuilds
 	// stream 0 under its id with client and server swapped ("reset" stream)
 	"P0.pcap": {{0, true, -1000, "early"}},
+	// a valid capture without packets
+	"EMPTY.pcap": {},
+}
+
+// RawCaptures are written byte for byte: files the importer cannot read.  An import job whose first
+// file is unreadable ends without an index; the files queued behind it go to a follow-up job.
+var RawCaptures = map[string][]byte{
+	"BAD.pcap": []byte("this is not a capture file\n"),
 }
 
 func WriteCapture(path string, dgs []Datagram) error {
